@@ -104,16 +104,36 @@ void h_ht_create(void)
 #endif
 #define SLOT(t, x) ((t)->s[HT_WRAP(x)])
 static inline _Bool live_h(const struct ht_table *t, uint32_t p, uint32_t hole) { return p != hole && t->s[p].key != HT_INVALID; }
-static inline _Bool wa(const struct ht_table *t, uint32_t h, uint32_t d, uint32_t hole)   /* Inv-A at (h,d) with a hole */
+/* home[p] = HT_H(key of slot p), computed once per slot by ht_homes() for the PRE state: one application of the
+ * uninterpreted hash per slot instead of one per Inv instance (the solver compares every pair of applications);
+ * home == NULL: apply the hash directly (POST state: only the ghost instances are evaluated) */
+#ifdef HT_STUB_CLOSER
+/* units ht.putd: the hash restricted to the keys that occur is a TABLE: verif_home0[p] (arbitrary) for the key of slot p
+ * of the pre-state, HT_PIN_HOME for the inserted key, arbitrary for any other key; "equal keys have equal homes" is
+ * assumed for all pairs of slots.  Every function Keys -> [0,N) restricts to such a table, so this over-approximates
+ * the uninterpreted hash (whose pairwise-consistency encoding was the bulk of the formula). */
+static uint32_t verif_home0[HT_N]; static ht_key_t verif_key; static struct ht_table verif_T0;
+static inline uint32_t home_of(ht_key_t k)
+{
+	if (k == verif_key) return HT_PIN_HOME;
+	for (uint32_t p = 0; p < HT_N; p++) if (verif_T0.s[p].key == k) return verif_home0[p];
+	return nondet_u32() & (HT_N - 1);
+}
+#define HT_HOME_DIRECT(k) home_of(k)
+#else
+#define HT_HOME_DIRECT(k) HT_H(k)
+#endif
+static inline void ht_homes(const struct ht_table *t, uint32_t *home) { for (uint32_t p = 0; p < HT_N; p++) home[p] = HT_H(t->s[p].key); }
+static inline _Bool wa(const struct ht_table *t, const uint32_t *home, uint32_t h, uint32_t d, uint32_t hole)   /* Inv-A at (h,d) with a hole */
 {
 	if (!((t->s[h].hop_info >> d) & 1u)) return 1;
 	uint32_t s = HT_WRAP(h + d);
-	return live_h(t, s, hole) && HT_H(t->s[s].key) == h;
+	return live_h(t, s, hole) && (home != NULL ? home[s] : HT_HOME_DIRECT(t->s[s].key)) == h;
 }
-static inline _Bool wb(const struct ht_table *t, uint32_t p, uint32_t hole)               /* Inv-B at p with a hole */
+static inline _Bool wb(const struct ht_table *t, const uint32_t *home, uint32_t p, uint32_t hole)               /* Inv-B at p with a hole */
 {
 	if (!live_h(t, p, hole)) return 1;
-	uint32_t h = HT_H(t->s[p].key), d = HT_WRAP(p - h);
+	uint32_t h = home != NULL ? home[p] : HT_HOME_DIRECT(t->s[p].key), d = HT_WRAP(p - h);
 	return d < 32 && ((t->s[h].hop_info >> d) & 1u);
 }
 static inline _Bool wc(const struct ht_table *t, uint32_t p, uint32_t q, uint32_t hole)  /* Inv-C at (p,q) with a hole */
@@ -125,10 +145,10 @@ static inline _Bool hole_unreferenced(const struct ht_table *t, uint32_t f)
 	for (uint32_t d = 0; d < 32; d++) if ((SLOT(t, f - d).hop_info >> d) & 1u) return 0;
 	return 1;
 }
-static inline _Bool window_a(const struct ht_table *t, uint32_t f)
+static inline _Bool window_a(const struct ht_table *t, const uint32_t *home, uint32_t f)
 {
 	/* homes f-62..f-1: every home that can reference a slot of f-31..f */
-	for (uint32_t b = 1; b < 63; b++) for (uint32_t d = 0; d < 32; d++) if (!wa(t, HT_WRAP(f - b), d, f)) return 0;
+	for (uint32_t b = 1; b < 63; b++) for (uint32_t d = 0; d < 32; d++) if (!wa(t, home, HT_WRAP(f - b), d, f)) return 0;
 	return 1;
 }
 static inline _Bool window_c(const struct ht_table *t, uint32_t f, uint32_t g)
@@ -139,17 +159,50 @@ static inline _Bool window_c(const struct ht_table *t, uint32_t f, uint32_t g)
 }
 static inline _Bool movable_exists(const struct ht_table *t, uint32_t f)
 {
-	for (uint32_t d = 1; d < 32; d++) { uint32_t hop = SLOT(t, f - d).hop_info; for (uint32_t i = 0; i < d; i++) if ((hop >> i) & 1u) return 1; }
+	/* some home x = f-d (1 <= d <= 31) has one of its bits 0..d-1 set; written over constant slot indices x */
+	for (uint32_t x = 0; x < HT_N; x++) { uint32_t d = HT_WRAP(f - x); if (d >= 1 && d < 32 && (t->s[x].hop_info & ((UINT32_C(1) << d) - 1)) != 0) return 1; }
 	return 0;
 }
+#ifndef HT_STUB_CLOSER
+/* exact functional effect of find_closer_entry, for EVERY table content (no precondition): either nothing can move
+ * and nothing changes, or for some home cp = f-d (1 <= d <= 31) and some bit i < d of its bitmap the entry of slot
+ * r = cp+i is copied into slot f, bit i of cp is replaced by bit d, r is returned and nothing else changes.  This is
+ * the contract the stub in the ht.putd units replaces the call with. */
+void h_ht_closer_fx(void)
+{
+	struct ht_table T, T0;
+	const uint32_t f = HT_F;
+	uint32_t g = nondet_u32();
+	__CPROVER_assume(g < HT_N);
+	T0 = T;
+	uint32_t r = find_closer_entry_VT(T.s, f);
+	if (r == 0xffffffff) {
+		HT_ASSERT(1, ht_same(&T0, &T), "C17.closer.fx.no-candidate-changes-nothing");
+		HT_ASSERT(2, !movable_exists(&T0, f), "C17.closer.fx.gives-up-only-when-no-entry-can-move");
+	} else {
+		uint32_t d = 0, i = 0; _Bool found = 0;
+		for (uint32_t dd = 1; dd < 32; dd++) if (T.s[HT_WRAP(f - dd)].hop_info != T0.s[HT_WRAP(f - dd)].hop_info) { d = dd; found = 1; }
+		uint32_t cp = HT_WRAP(f - d);
+		HT_ASSERT(3, found && r < HT_N && HT_WRAP(r - cp) < d, "C17.closer.fx.moved-entry-lies-between-its-home-and-the-hole");
+		i = HT_WRAP(r - cp) & 31u;
+		HT_ASSERT(4, ((T0.s[cp].hop_info >> i) & 1u) && T.s[cp].hop_info == ((T0.s[cp].hop_info & ~(UINT32_C(1) << i)) | (UINT32_C(1) << d)), "C17.closer.fx.bitmap-bit-moves-with-the-entry");
+		HT_ASSERT(5, r < HT_N && T.s[f].key == T0.s[r].key && T.s[f].value.vals[0] == T0.s[r].value.vals[0], "C17.closer.fx.hole-receives-the-entry");
+		HT_ASSERT(6, (g == f || (T.s[g].key == T0.s[g].key && T.s[g].value.vals[0] == T0.s[g].value.vals[0])) && (g == cp || T.s[g].hop_info == T0.s[g].hop_info), "C17.closer.fx.nothing-else-changes");
+	}
+	VERIF_COVER(r != 0xffffffff && HT_WRAP(f - r) == 31, "entry moved by 31 slots");
+	VERIF_COVER(r == 0xffffffff, "no candidate");
+}
+
 void h_ht_closer(void)
 {
 	struct ht_table T, T0;
 	const uint32_t f = HT_F;
 	uint32_t gh = nondet_u32(), gd = nondet_u32(), gp = nondet_u32(), gq = nondet_u32();
 	__CPROVER_assume(gh < HT_N && gd < 32 && gp < HT_N && gq < HT_N);
-	__CPROVER_assume(hole_unreferenced(&T, f) && window_a(&T, f));
-	__CPROVER_assume(wa(&T, gh, gd, f) && wb(&T, gp, f) && wb(&T, gq, f) && wc(&T, gp, gq, f) && wc(&T, gq, gp, f));
+	uint32_t home0[HT_N];
+	ht_homes(&T, home0);
+	__CPROVER_assume(hole_unreferenced(&T, f) && window_a(&T, home0, f));
+	__CPROVER_assume(wa(&T, home0, gh, gd, f) && wb(&T, home0, gp, f) && wb(&T, home0, gq, f) && wc(&T, gp, gq, f) && wc(&T, gq, gp, f));
 	__CPROVER_assume(window_c(&T, f, gp) && window_c(&T, f, gq));
 	T0 = T;
 	uint32_t r = find_closer_entry_VT(T.s, f);
@@ -160,8 +213,8 @@ void h_ht_closer(void)
 		HT_ASSERT(3, r < HT_N && HT_WRAP(f - r) >= 1 && HT_WRAP(f - r) <= 31, "C17.closer.hole-moves-closer-to-the-home");
 		if (r < HT_N) {
 			HT_ASSERT(4, hole_unreferenced(&T, r), "C17.closer.new-hole-is-unreferenced");
-			HT_ASSERT(5, wa(&T, gh, gd, r), "C17.closer.inv-A-preserved-at-an-arbitrary-bit");
-			HT_ASSERT(6, wb(&T, gp, r), "C17.closer.inv-B-preserved-at-an-arbitrary-slot");
+			HT_ASSERT(5, wa(&T, NULL, gh, gd, r), "C17.closer.inv-A-preserved-at-an-arbitrary-bit");
+			HT_ASSERT(6, wb(&T, NULL, gp, r), "C17.closer.inv-B-preserved-at-an-arbitrary-slot");
 			HT_ASSERT(7, wc(&T, gp, gq, r), "C17.closer.inv-C-preserved-at-an-arbitrary-pair");
 			/* view: the entry that lived in ghost slot gp is still stored with its value - in gp, or in f if gp was moved */
 			if (live_h(&T0, gp, f)) {
@@ -177,4 +230,99 @@ void h_ht_closer(void)
 	VERIF_COVER(r != 0xffffffff && r > f, "moved across the table end");
 	VERIF_COVER(r == 0xffffffff, "no candidate");
 }
+#endif /* !HT_STUB_CLOSER */
+
+#ifdef HT_STUB_CLOSER
+/* ---- hashtable_put with displacement (units ht.putd.*) ------------------------------------------------------
+ * The call of find_closer_entry inside the real put is replaced by its functional contract (proved by ht.closer.fx
+ * for every table content): any movable candidate may be chosen.  The home c of the inserted key is a compile-time
+ * constant (rotation symmetry, see above); c = 100 makes the add range c..c+63 wrap around the table end.
+ * Inv is assumed for every bit of every home (A), for the 64 slots of the add range and two ghost slots (B), and for
+ * all pairs among those (C); it is re-established at ARBITRARY ghost indices chosen before the call.  The stub
+ * tracks where the entry of ghost slot gp lives (verif_loc) and where the content of ghost slot gq came from
+ * (verif_org).  Bounded: at most HT_MAXMOVES displacement steps per insertion (paths with more are cut). */
+#define HT_C HT_PIN_HOME
+#ifndef HT_MAXMOVES
+#define HT_MAXMOVES 2
 #endif
+static uint32_t verif_gp, verif_gq, verif_loc, verif_org;
+static unsigned verif_moves; static _Bool verif_stuck;
+static inline uint32_t verif_stub_find_closer_entry(ht_slot_t *table, uint32_t f)
+{
+	const struct ht_table *T = (const struct ht_table *)table;
+	__CPROVER_assert(f < HT_N, "C17.putd.closer-is-called-with-a-slot-index");
+	if (!movable_exists(T, f)) { verif_stuck = 1; return 0xffffffff; }
+	__CPROVER_assume(verif_moves < HT_MAXMOVES);
+	verif_moves++;
+	uint32_t d = nondet_u32(), i = nondet_u32();
+	__CPROVER_assume(d >= 1 && d < 32 && i < d);
+	uint32_t cp = HT_WRAP(f - d), r = HT_WRAP(cp + i);
+	__CPROVER_assume((table[cp].hop_info >> i) & 1u);
+	table[f].key = table[r].key;
+	table[f].value = table[r].value;
+	table[cp].hop_info = (table[cp].hop_info & ~(UINT32_C(1) << i)) | (UINT32_C(1) << d);
+	if (verif_loc == r) verif_loc = f;
+	if (verif_gq == f) verif_org = r;
+	return r;
+}
+#define NOHOLE HT_N
+void h_ht_putd(void)
+{
+	struct ht_table T, T0;
+	const uint32_t c = HT_C;
+	ht_key_t key;
+	ht_val_t v, prev;
+	ht_val_t *prevp = nondet_bool() ? &prev : NULL;
+	uint32_t gh = nondet_u32(), gd = nondet_u32(), gp = nondet_u32(), gq = nondet_u32();
+	__CPROVER_assume(gh < HT_N && gd < 32 && gp < HT_N && gq < HT_N);
+	__CPROVER_assume(key != HT_INVALID);
+	/* the hash as a table (see home_of) */
+	uint32_t *const home0 = verif_home0;
+	for (uint32_t p = 0; p < HT_N; p++) { home0[p] = nondet_u32() & (HT_N - 1); __CPROVER_assume(T.s[p].key != key || home0[p] == c); }
+	for (uint32_t p = 0; p < HT_N; p++) for (uint32_t q = p + 1; q < HT_N; q++) __CPROVER_assume(T.s[p].key != T.s[q].key || home0[p] == home0[q]);
+	/* Inv (instances) */
+	for (uint32_t h = 0; h < HT_N; h++) for (uint32_t d = 0; d < 32; d++) __CPROVER_assume(wa(&T, home0, h, d, NOHOLE));
+	for (uint32_t b = 0; b < 64; b++) __CPROVER_assume(wb(&T, home0, HT_WRAP(c + b), NOHOLE));
+	__CPROVER_assume(wb(&T, home0, gp, NOHOLE) && wb(&T, home0, gq, NOHOLE) && wc(&T, gp, gq, NOHOLE));
+	const ht_key_t kp = T.s[gp].key, kq = T.s[gq].key;   /* ghost slots read once */
+	for (uint32_t a = 0; a < 64; a++) {
+		uint32_t sa = HT_WRAP(c + a);
+		__CPROVER_assume(T.s[sa].key == HT_INVALID || ((sa == gp || T.s[sa].key != kp) && (sa == gq || T.s[sa].key != kq)));
+		for (uint32_t b = a + 1; b < 64; b++) __CPROVER_assume(wc(&T, sa, HT_WRAP(c + b), NOHOLE));
+	}
+	T0 = T; verif_T0 = T; verif_key = key;
+	verif_gp = gp; verif_gq = gq; verif_loc = gp; verif_org = gq; verif_moves = 0; verif_stuck = 0;
+	_Bool was_present = 0, range_full = 1; void *oldval = NULL;
+	for (uint32_t b = 0; b < 32; b++) if (((T0.s[c].hop_info >> b) & 1u) && T0.s[HT_WRAP(c + b)].key == key) { was_present = 1; oldval = T0.s[HT_WRAP(c + b)].value.vals[0]; }
+	for (uint32_t b = 0; b < 64; b++) if (T0.s[HT_WRAP(c + b)].key == HT_INVALID) range_full = 0;
+
+	verif_pin_key = (uint64_t)key; verif_pin = 1;
+	int r = hashtable_put_VT(T.s, key, v, prevp);
+	verif_pin = 0;
+
+	HT_ASSERT(1, r == HASHTABLE_SUCCESS || (r == HASHTABLE_FULL && !was_present && (range_full || verif_stuck)), "C17.putd.refused-only-when-no-slot-in-reach-can-be-freed");
+	_Bool bound = 0;
+	for (uint32_t b = 0; b < 32; b++) if (((T.s[c].hop_info >> b) & 1u) && T.s[HT_WRAP(c + b)].key == key && T.s[HT_WRAP(c + b)].value.vals[0] == v.vals[0]) bound = 1;
+	HT_ASSERT(2, r != HASHTABLE_SUCCESS || bound, "C17.putd.new-binding-is-reachable-from-its-home");
+	HT_ASSERT(3, wa(&T, NULL, gh, gd, NOHOLE), "C17.putd.inv-A-at-an-arbitrary-bit");
+	HT_ASSERT(4, wb(&T, NULL, gp, NOHOLE), "C17.putd.inv-B-at-an-arbitrary-slot");
+	HT_ASSERT(5, wc(&T, gp, gq, NOHOLE), "C17.putd.inv-C-at-an-arbitrary-pair");
+	if (T0.s[gp].key != HT_INVALID) {
+		uint32_t now = verif_loc;
+		HT_ASSERT(6, now < HT_N && T.s[now].key == T0.s[gp].key && (T.s[now].value.vals[0] == T0.s[gp].value.vals[0] || (r == HASHTABLE_SUCCESS && T0.s[gp].key == key && T.s[now].value.vals[0] == v.vals[0])), "C17.putd.every-other-binding-survives-with-its-value");
+	}
+	if (T.s[gq].key != HT_INVALID) {
+		uint32_t o = verif_org;
+		HT_ASSERT(7, (r == HASHTABLE_SUCCESS && T.s[gq].key == key && T.s[gq].value.vals[0] == v.vals[0]) ||
+			(o < HT_N && T0.s[o].key == T.s[gq].key && T0.s[o].value.vals[0] == T.s[gq].value.vals[0]), "C17.putd.no-binding-appears");
+	}
+	HT_ASSERT(8, prevp == NULL || prev.vals[0] == ((r == HASHTABLE_SUCCESS && was_present) ? oldval : NULL), "C17.putd.reports-previous-value");
+	VERIF_COVER(r == HASHTABLE_SUCCESS && verif_moves == 1, "inserted after one displacement");
+	VERIF_COVER(r == HASHTABLE_SUCCESS && verif_moves == HT_MAXMOVES, "inserted after the maximal number of displacements");
+	VERIF_COVER(r == HASHTABLE_FULL && verif_moves >= 1, "gave up after a displacement");
+	VERIF_COVER(r == HASHTABLE_FULL && verif_moves == 0 && !range_full, "gave up at once: nothing can move");
+	VERIF_COVER(r == HASHTABLE_SUCCESS && was_present, "overwrote existing key");
+	VERIF_COVER(r == HASHTABLE_SUCCESS && verif_moves == 0 && !was_present, "inserted without displacement");
+}
+#endif
+#endif /* HT_ORDER >= 7 */
